@@ -12,7 +12,7 @@
    the bit-for-bit tie and the failing-input search of driver/c10.py. *)
 From Coq Require Import List Arith Floats.
 From OV Require Import Base.Panic Base.Arith gen.Params Model.Roots
-                       Proofs.Roots Proofs.RootsRing Proofs.RootsField Proofs.RootsExamples.
+                       Proofs.Roots Proofs.RootsMore Proofs.RootsRing Proofs.RootsField Proofs.RootsExamples.
 Import ListNotations.
 
 (* ================= any arithmetic (floats with any oracle table included) ================= *)
@@ -56,6 +56,68 @@ Check laguer_exhausted_full : forall (RA : RootArith) a x l,
   laguer RA a x = Ok l -> lwhy l = Exhausted -> liters l = LAGUER_MT * LAGUER_MR - 1.
 Print Assumptions laguer_exhausted_full.
 
+
+(* exit Converged => the code's own test |p(x)| <= EPS * err (conv_test: the inner loop at the RETURNED x gives
+   (b, err, _, _) with b.abs() <= err * EPS) held at the returned iterate *)
+Theorem laguer_converged_small : forall (RA : RootArith) a x l,
+  laguer RA a x = Ok l -> lwhy l = Converged -> conv_test RA a (length a - 1) (lx l).
+Proof. intros RA a x l. exact (laguer_converged_lemma RA a x l). Qed.
+Check laguer_converged_small : forall (RA : RootArith) a x l,
+  laguer RA a x = Ok l -> lwhy l = Converged -> conv_test RA a (length a - 1) (lx l).
+Print Assumptions laguer_converged_small.
+(* non-vacuity: laguer_bounded_nonvacuous above is a call that exits Converged *)
+
+(* the number of laguer calls: one per root while deflating (degree >= 4), one more per root when polishing *)
+Theorem trace_length : forall (RA : RootArith) coeffs refine rs tr,
+  poly_solve RA coeffs refine = Ok (rs, tr) ->
+  length tr = (if 3 <? length coeffs - 1 then length coeffs - 1 else 0) + (if refine then length coeffs - 1 else 0).
+Proof. intros RA coeffs refine rs tr. exact (trace_length_lemma RA coeffs refine rs tr). Qed.
+Check trace_length : forall (RA : RootArith) coeffs refine rs tr,
+  poly_solve RA coeffs refine = Ok (rs, tr) ->
+  length tr = (if 3 <? length coeffs - 1 then length coeffs - 1 else 0) + (if refine then length coeffs - 1 else 0).
+Print Assumptions trace_length.
+(* non-vacuity: roots_length_nonvacuous (degree 4, refine: 4 + 4 = 8 calls) *)
+
+(* refine = true: EVERY value of the unpolished run is passed through laguer on the undeflated polynomial, in order,
+   and replaced by the result *)
+Theorem refine_polishes_all : forall (RA : RootArith) coeffs rs tr,
+  poly_solve RA coeffs true = Ok (rs, tr) ->
+  exists rs0 tr0 (ls : list (lres (KK RA))),
+    poly_solve RA coeffs false = Ok (rs0, tr0) /\ length ls = length coeffs - 1 /\ tr = tr0 ++ ls /\
+    forall j, j < length coeffs - 1 ->
+      exists l, nth_error ls j = Some l /\ laguer RA coeffs (nth j rs0 zero) = Ok l /\ nth j rs zero = lx l.
+Proof. intros RA coeffs rs tr. exact (refine_polishes_all_lemma RA coeffs rs tr). Qed.
+Check refine_polishes_all : forall (RA : RootArith) coeffs rs tr,
+  poly_solve RA coeffs true = Ok (rs, tr) ->
+  exists rs0 tr0 (ls : list (lres (KK RA))),
+    poly_solve RA coeffs false = Ok (rs0, tr0) /\ length ls = length coeffs - 1 /\ tr = tr0 ++ ls /\
+    forall j, j < length coeffs - 1 ->
+      exists l, nth_error ls j = Some l /\ laguer RA coeffs (nth j rs0 zero) = Ok l /\ nth j rs zero = lx l.
+Print Assumptions refine_polishes_all.
+
+(* a polished root whose polishing call (entry |tr| - n + j of the trace) exits Converged passes the code's own
+   smallness test ON THE UNDEFLATED POLYNOMIAL *)
+Theorem polished_converged : forall (RA : RootArith) coeffs rs tr j l,
+  poly_solve RA coeffs true = Ok (rs, tr) -> j < length coeffs - 1 ->
+  nth_error tr (length tr - (length coeffs - 1) + j) = Some l -> lwhy l = Converged ->
+  conv_test RA coeffs (length coeffs - 1) (nth j rs zero).
+Proof. intros RA coeffs rs tr j l H. exact (polished_converged_lemma RA coeffs rs tr j l H). Qed.
+Check polished_converged : forall (RA : RootArith) coeffs rs tr j l,
+  poly_solve RA coeffs true = Ok (rs, tr) -> j < length coeffs - 1 ->
+  nth_error tr (length tr - (length coeffs - 1) + j) = Some l -> lwhy l = Converged ->
+  conv_test RA coeffs (length coeffs - 1) (nth j rs zero).
+Print Assumptions polished_converged.
+Example polished_converged_nonvacuous :
+  exists rs tr l, roots_f64 tbl_1234 p1234 true = Ok (rs, tr) /\
+                  nth_error tr (length tr - (length p1234 - 1) + 0) = Some l /\ lwhy l = Converged.
+Proof. exact ex_polish_float. Qed.
+
+(* real-axis snapping: the value is kept, or its imaginary part is replaced by zero *)
+Theorem snap_cases : forall (RA : RootArith) (x : KK RA), snap RA x = x \/ snap RA x = mkk RA (kre RA x) zero.
+Proof. intros RA x. exact (snap_cases_lemma RA x). Qed.
+Check snap_cases : forall (RA : RootArith) (x : KK RA), snap RA x = x \/ snap RA x = mkk RA (kre RA x) zero.
+Print Assumptions snap_cases.
+
 (* ================= any commutative ring on KK (nothing assumed of RR, of the oracles, of the tests) ================= *)
 
 (* ev, dv, hv are p(x), p'(x), p''(x)/2: the Taylor expansion at x *)
@@ -95,6 +157,34 @@ Print Assumptions deflate_spec.
 Example deflate_spec_nonvacuous :
   RingLaws (KK (RA7 f0)) /\ exists ad' r, deflate (RA7 f0) [f1; f2; f3; f1] 2 f2 = Ok (ad', r).
 Proof. split; [exact A7_RingLaws | exact ex_deflate7]. Qed.
+
+
+(* the whole deflation phase (degree >= 4, no refinement): p is recomposed EXACTLY from the values found (in the order
+   found, index n-1 first; each is the snapped result of one laguer call) and one residual per value,
+     p(t) = (t - x_{n-1}) ((t - x_{n-2}) ( ... ((t - x_0) a_n + r_0) ... ) + r_{n-2}) + r_{n-1},
+   so if every value is an exact root of its own deflated polynomial (all residuals 0) then p(t) = a_n prod (t - x_j).
+   In floating point the residuals are not 0 and nothing bounds them: that is the recorded finding KF-C10-C. *)
+Theorem deflation_recomposes : forall (RA : RootArith), RingLaws (KK RA) -> forall coeffs rs tr,
+  3 < length coeffs - 1 -> poly_solve RA coeffs false = Ok (rs, tr) ->
+  exists L : list (KK RA * KK RA),
+    map fst L = rev rs /\ map fst L = map (fun l => snap RA (lx l)) tr /\
+    (forall t, ev RA coeffs t = comp RA L (nth (length coeffs - 1) coeffs zero) t) /\
+    (Forall (fun xr => snd xr = zero) L ->
+     forall t, ev RA coeffs t = (linprod RA (rev rs) t * nth (length coeffs - 1) coeffs zero)%A).
+Proof. intros RA RL coeffs rs tr. exact (deflation_recomposes_lemma RA RL coeffs rs tr). Qed.
+Check deflation_recomposes : forall (RA : RootArith), RingLaws (KK RA) -> forall coeffs rs tr,
+  3 < length coeffs - 1 -> poly_solve RA coeffs false = Ok (rs, tr) ->
+  exists L : list (KK RA * KK RA),
+    map fst L = rev rs /\ map fst L = map (fun l => snap RA (lx l)) tr /\
+    (forall t, ev RA coeffs t = comp RA L (nth (length coeffs - 1) coeffs zero) t) /\
+    (Forall (fun xr => snd xr = zero) L ->
+     forall t, ev RA coeffs t = (linprod RA (rev rs) t * nth (length coeffs - 1) coeffs zero)%A).
+Print Assumptions deflation_recomposes.
+(* x^4 over GF(7) *)
+Example deflation_recomposes_nonvacuous :
+  RingLaws (KK RA7r) /\
+  exists tr, poly_solve RA7r [f0; f0; f0; f0; f1] false = Ok ([f0; f0; f0; f0], tr) /\ length tr = 4.
+Proof. split; [exact A7_RingLaws | exact ex_deflation7]. Qed.
 
 (* ================= the closed forms over an abstract field ================= *)
 
